@@ -293,6 +293,71 @@ def gen_session(exe):
     print("Session: cache protocol and reset facts extracted")
 
 
+def gen_cte_formats():
+    """array format / header tables of the CTE encoder (C25)"""
+    src = open(os.path.join(REPO, "cte", "encoder_array.go")).read()
+    conf = open(os.path.join(REPO, "configuration", "encoder.go")).read()
+    # numeric values of the CTEEncodingFormat* constants (iota block)
+    m = re.search(r"const \(\s*CTEEncodingFormatDecimal(.*?)\n\)", conf, re.S)
+    codes = {}
+    if m:
+        idx = 0
+        expr = None
+        for line in ("CTEEncodingFormatDecimal" + m.group(1)).splitlines():
+            line = line.strip()
+            if not line or line.startswith("//"):
+                continue
+            mm = re.match(r"(\w+)(?:\s+\w+\s*=\s*(.*))?$", line)
+            if not mm:
+                continue
+            if mm.group(2) is not None:
+                expr = mm.group(2)
+            val = eval(expr.replace("iota", str(idx))) if expr is not None else idx
+            codes[mm.group(1)] = val
+            idx += 1
+    def table(name):
+        mt = re.search(r"var " + name + r" = \[\]string\{(.*?)\n\}", src, re.S)
+        rows = []
+        if mt:
+            for mm in re.finditer(r"configuration\.(\w+):\s*\"([^\"]*)\"", mt.group(1)):
+                rows.append((codes.get(mm.group(1), 999), mm.group(2)))
+        return rows
+    fmtl = lambda rows: "[" + ", ".join(f"({a}, {lean_str(b)})" for a, b in rows) + "]"
+    lines = ["/- GENERATED by extract/extract.py from cte/encoder_array.go and configuration/encoder.go — do not edit -/",
+             "namespace CE.Gen", ""]
+    for bits, name in [(8, "arrayFormats8"), (16, "arrayFormats16"), (32, "arrayFormats32"), (64, "arrayFormats64")]:
+        lines.append(f"def cteArrayFormats{bits} : List (Nat × String) := {fmtl(table(name))}")
+    lines.append(f"def cteArrayFormatsGeneral : List (Nat × String) := {fmtl(table('arrayFormatsGeneral'))}")
+    for k, name in [("u8", "Uint8"), ("u16", "Uint16"), ("u32", "Uint32"), ("u64", "Uint64"), ("i8", "Int8"), ("i16", "Int16"),
+                    ("i32", "Int32"), ("i64", "Int64"), ("f16", "Float16"), ("f32", "Float32"), ("f64", "Float64")]:
+        lines.append(f"def cteArrayHeaders_{k} : List (Nat × String) := {fmtl(table('arrayHeaders' + name))}")
+    # which settings of the float kinds take the hex-float writer
+    hexcond = {}
+    for k in ["16", "32", "64"]:
+        mm = re.search(r"Array\.Float" + k + r" (==|!=) configuration\.(\w+) \{", src)
+        hexcond[k] = (mm.group(1), codes.get(mm.group(2), 999)) if mm else ("?", 999)
+    lines.append("/-- (operator, constant) of the test that routes a float array to the hex-float element writer -/")
+    lines.append("def cteFloatHexCond : List (String × String × Nat) := [" + ", ".join(f'("f{k}", "{op}", {c})' for k, (op, c) in hexcond.items()) + "]")
+    lines += ["", "end CE.Gen", ""]
+    open(os.path.join(GEN, "CteFormats.lean"), "w").write("\n".join(lines))
+    chk = ["import CE.Gen.CteFormats", "import CE.Cte.ArrFmt",
+           "/- GENERATED obligations: the format and header tables of the CTE array encoder, as extracted from /repo",
+           "   just now, are the ones the model CE/Cte/ArrFmt.lean (and the C25 theorems) describe. -/",
+           "namespace CE.GenCheckCte", "open CE.Cte.ArrFmt", "",
+           "def lookup (t : List (Nat × String)) (c : Nat) : Option String := (t.find? (·.1 == c)).map (·.2)", "",
+           "theorem formats8_eq : ∀ f ∈ Fmt.all, lookup CE.Gen.cteArrayFormats8 f.code = some (verbText 8 f) := by decide",
+           "theorem formats16_eq : ∀ f ∈ Fmt.all, lookup CE.Gen.cteArrayFormats16 f.code = some (verbText 16 f) := by decide",
+           "theorem formats32_eq : ∀ f ∈ Fmt.all, lookup CE.Gen.cteArrayFormats32 f.code = some (verbText 32 f) := by decide",
+           "theorem formats64_eq : ∀ f ∈ Fmt.all, lookup CE.Gen.cteArrayFormats64 f.code = some (verbText 64 f) := by decide",
+           "theorem formatsGeneral_dec : lookup CE.Gen.cteArrayFormatsGeneral Fmt.dec.code = some \"%v\" := by decide"]
+    for k in ["u8", "u16", "u32", "u64", "i8", "i16", "i32", "i64", "f16", "f32", "f64"]:
+        chk.append(f"theorem headers_{k}_eq : ∀ f ∈ Fmt.all, lookup CE.Gen.cteArrayHeaders_{k} f.code = some (header .{k} f) := by decide")
+    chk.append('theorem float_hex_routing : CE.Gen.cteFloatHexCond = [("f16", "!=", 0), ("f32", "!=", 0), ("f64", "!=", 0)] := by decide')
+    chk += ["", "end CE.GenCheckCte", ""]
+    open(os.path.join(GEN, "CheckCte.lean"), "w").write("\n".join(chk))
+    print("CteFormats: array format and header tables extracted")
+
+
 def snapshot():
     src = open(os.path.join(GEN, "Chars.lean")).read()
     src = src.replace("namespace CE.Gen", "namespace CE.Chars.Model").replace("end CE.Gen", "end CE.Chars.Model")
@@ -328,6 +393,7 @@ def main():
     gen_chars(exe)
     gen_api(exe)
     gen_session(exe)
+    gen_cte_formats()
     gen_check()
     if "--snapshot" in sys.argv:
         snapshot()
